@@ -55,7 +55,7 @@ CLAIMS = {
         "technique": RM,
     },
     "C17": {
-        "text": "All 17x17 colour pairs on every writer kind (Vec, File, the three dyn Write trait-object kinds, and Stdout / StdoutLock / Stderr / StderrLock in child processes with both pipes captured), all fault scripts up to the depth bound at each of the up-to-four inner writes, File after a failed call, every data length up to 1100 bytes on every writer kind, standard streams on /dev/full, a coloured write from a thread-local destructor, and several threads writing through the process-wide handles (the pipe must be a concatenation of whole frames); output parsed and interpreted by the reference models, return value compared with the bytes the writer accepted.",
+        "text": "All 17x17 colour pairs on every writer kind (Vec, File, the three dyn Write trait-object kinds, and Stdout / StdoutLock / Stderr / StderrLock in child processes with both pipes captured), all fault scripts up to the depth bound at each of the up-to-four inner writes, File after a failed call, every data length up to 1100 bytes on every writer kind, standard streams on /dev/full, a coloured write from a thread-local destructor, and several threads writing through the process-wide handles (the pipe must be a concatenation of whole frames); sinks with room for 1-40 bytes per call; output parsed and interpreted by the reference models, return value compared with the bytes the writer accepted.  Under faults the verdict does not depend on how the inner writes are grouped: a successful call left exactly one correct frame around the accepted data, a reported error is one an inner write produced.",
         "design_ref": "7 C17",
         "note": "trusts refmodel::{vt,sgr}",
         "technique": "runtime monitoring: scripted fault-injecting writer + reference interpretation of the accepted bytes, exhaustive colour pairs and fault scripts",
@@ -109,7 +109,7 @@ CLAIMS = {
         "technique": "runtime monitoring: one monitor binary per feature configuration + differential reference-model oracle",
     },
     "C08": {
-        "text": "Seeded operation sequences are applied in lock-step to every constructor / choice of AutoStream, to StripStream and to the bare writer, over the writer kinds (in-memory, borrowed, boxed dyn with injected short counts and errors, &mut dyn / Box<dyn + Send>, the deprecated Buffer, file); results of every call, reported mode and recovered bytes are compared, and the bytes each call consumed re-sent with write_all only must give the same output.  Further lanes: to_adapted_string against the stream it stands in for (C09 child log + generated texts), sequences split across lock() (child process), and anstream built with the feature sets none / auto / wincon.",
+        "text": "Seeded operation sequences are applied in lock-step to every constructor / choice of AutoStream, to StripStream and to the bare writer, over the writer kinds (in-memory, borrowed, boxed dyn with injected short counts and errors, &mut dyn / Box<dyn + Send>, the deprecated Buffer, file); results of every call, reported mode and recovered bytes are compared (under injected faults call by call only while both streams offer their writer the same buffers, otherwise by consistency with the consumed counts), the bytes each call consumed re-sent with write_all only must give the same output, and formatted writes carry values whose Display fails and fragments of 1 KiB - 64 KiB.  Further lanes: to_adapted_string against the stream it stands in for (C09 child log + generated texts), sequences split across lock() (child process), and anstream built with the feature sets none / auto / wincon.",
         "design_ref": "7 C08",
         "note": "metamorphic oracle (Never == StripStream, AlwaysAnsi/Always == identity); Windows-only Wincon arm is not reachable on this platform",
         "technique": "runtime monitoring: lock-step differential execution of operation histories against reference streams",
